@@ -132,8 +132,7 @@
     (and (= (len x) 2) (in x0 syntax))
       (if (and
           (= x0 'unquote)
-          (isinstance x1 hy.models.Symbol)
-          (.startswith x1 "@"))
+          (.startswith (hy-repr x1) "@"))
         ; This case is special because `~@b` would be wrongly
         ; interpreted as `(unquote-splice b)` instead of `(unquote @b)`.
         (+ "~ " (hy-repr x1))
